@@ -53,7 +53,7 @@ PROPS = {
 PROPS['C02'] = {
     'title': 'Intersects/Contains/Within/coordinate_position agree with DE-9IM',
     'level': 'proof',
-    'verus': ['c02_ring', 'c02_position', 'c02_intersects'],
+    'verus': ['c02_ring', 'c02_position', 'c02_intersects', 'c02_multi'],
     'kani': [
         ('geo', 'c02.rs', r'^c02_k_(line_coord|rect_coord|tri_intersects_coord|tri_pos|tri_accumulates|line_line|rect_rect|contains_line_coord|contains_line_line|contains_rect|contains_tri_coord)$', 'complete', 'quick'),
         ('geo', 'c02.rs', r'^c02_k_rect_line$', 'complete', 'thorough'),
@@ -88,7 +88,8 @@ PROPS['C02'] = {
         'C02.V.polygon_intersects_coord': r'^c02_k_polygon_(with_hole_)?pos',
         'C02.V.polygon_contains_coord': r'^c02_k_polygon_(with_hole_)?pos',
     },
-    'trusted': ['assumed contract of the Kernel trait: orient2d returns the exact sign (robust::orient2d for floats; default body verified for integers in C03)',
+    'trusted': ['Verus unit c02_multi: Multi*::iter() twins (members in order) with the std contract of Iterator::any; members own intersects abstract; bounding boxes abstract and their Into<Option<Rect>> conversion a function; NOT proved: disjoint boxes imply no member intersects',
+                'assumed contract of the Kernel trait: orient2d returns the exact sign (robust::orient2d for floats; default body verified for integers in C03)',
                 'Vec-returning twin of LineString::lines() (element i = Line{start: s[i], end: s[i+1]})',
                 'LineString position: the callees bounding_rect (contains every coordinate), Rect x Coord and LineString x Coord intersects are used through ASSUMED contracts (decided elsewhere: c02_intersects, K harnesses c02_k_linestring_pos_*, c19)'],
     'undecided_clauses': [
